@@ -69,8 +69,8 @@ def run(module: str, cfg: str, *, name: str | None = None, workers: int | str = 
         (wd / fn).write_text(text)
     src = wd / f"{module}.tla"
     if not src.exists():
-        orig = SPEC / f"{module}.tla"
-        if not orig.exists():
+        orig = next((d / f"{module}.tla" for d in (SPEC, SPEC / "prim", SPEC / "algo") if (d / f"{module}.tla").exists()), None)
+        if orig is None:
             raise MachineryError(f"no such module {module}")
         # TLC resolves the root module relative to cwd; copy root, library for the rest
         shutil.copy(orig, src)
